@@ -848,9 +848,9 @@ func runLoop(a Args) *Result {
 	res := newResult("loop", a.seed, a.tier)
 	res.Rule = "closed loop of the real Coordinator (runOnce) with real sidecars (TargetsManager+Service+Proxy, own store directories), simulated StatefulSet and scrapes: random small configurations (1-3 shards, 2-7 targets incl. zero-size / too big / at-the-limit / unhealthy ones, head and process limits, idle scale-down, min/max shards), arbitrary initial placements (duplicates, pending transfers, leftovers), histories of cycles, scrape rounds, growth, discovery changes and - for C06 - failed POSTs, unready / unreachable / out-of-sync shards, restarts from the store, external scaling; then a fault-free tail of (cycle + 3 scrape rounds); non-trivial = at least one assignment changes in the history; distinct by encoded history"
 	rng := NewRng(a.seed)
-	n, tail := 60, 14
+	n, tail := 300, 14
 	if a.tier == "thorough" {
-		n, tail = 1200, 20
+		n, tail = 5000, 20
 	}
 	if a.n > 0 {
 		n = a.n
@@ -952,17 +952,27 @@ func runLoop(a Args) *Result {
 		res.Dist["cycles"] += len(flags)
 		// scale-up clause on every cycle
 		for k, f := range flags {
-			if len(f) == 4 && f[2] == '0' {
+			if len(f) == 5 && f[2] == '0' {
 				res.ImplViol = capViol(res.ImplViol, Violation{Property: prop, Clause: "scaleUp", Signature: prop + "/scaleUp/" + loopReason(c, run),
 					What: fmt.Sprintf("cycle %d: all shards in sync, an eligible unscraped target was not placed and more shards are allowed, but the requested shard count does not exceed the current one", k), Case: full}, 2)
 				break
+			}
+		}
+		// the stability theorem's hypotheses hold of the real reports => the real cycle must be quiet
+		for k, f := range flags {
+			if len(f) == 5 && f[4] == '1' {
+				res.count("cycles_meeting_stability_hypotheses")
+				if f[1] != '1' {
+					res.Mismatch = capViol(res.Mismatch, Violation{Property: prop, Clause: "stable", Signature: "stable-theorem-vs-impl",
+						What: fmt.Sprintf("cycle %d: the reports of the real shards satisfy the hypotheses of C03_stable_checked, but the real cycle sent updates or changed the scale", k), Case: full}, 3)
+				}
 			}
 		}
 		// convergence in the fault-free tail
 		j0 := -1
 		for k := len(flags) - 1; k >= run.TailFrom; k-- {
 			f := flags[k]
-			stable := len(f) == 4 && f[0] == '1' && f[1] == '1' && k < len(run.SnapAfter) && sameSnap(run.SnapBefore[k], run.SnapAfter[k])
+			stable := len(f) == 5 && f[0] == '1' && f[1] == '1' && k < len(run.SnapAfter) && sameSnap(run.SnapBefore[k], run.SnapAfter[k])
 			if !stable {
 				break
 			}
@@ -972,7 +982,7 @@ func runLoop(a Args) *Result {
 			why := loopReason(c, run)
 			res.count("not_converged_" + why)
 			res.ImplViol = capViol(res.ImplViol, Violation{Property: prop, Clause: "converges", Signature: prop + "/converges/" + why,
-				What: fmt.Sprintf("after %d fault-free cycles (3 scrape rounds each) the shards are not in the converged, quiet state: %s; flags per cycle (converged,quiet,scaleUpClause,faulty) %s", c.Tail, why, strings.Join(flags[run.TailFrom:], ",")), Case: full}, 2)
+				What: fmt.Sprintf("after %d fault-free cycles (3 scrape rounds each) the shards are not in the converged, quiet state: %s; flags per cycle (converged,quiet,scaleUpClause,faulty,stabilityHypotheses) %s", c.Tail, why, strings.Join(flags[run.TailFrom:], ",")), Case: full}, 2)
 		} else {
 			res.count(fmt.Sprintf("converged_after_%02d", j0-run.TailFrom))
 		}
